@@ -544,12 +544,17 @@ type c07WParams struct {
 	// three-party history is registered under C01 (B's messages arrive intact),
 	// C02 (B's stream is well-formed) and C16 (nothing follows B's Close frame).
 	Prop string
+	// Cross: B has the other role than A (a process that both accepts and dials)
+	Cross bool
 	// Sep: B is opened by its own task (it may be created while A's close is
 	// still in progress) instead of by the task that has just closed A.
 	Sep bool
 }
 
 func (p c07WParams) name() string {
+	if p.Cross {
+		return "wconc-cross/" + p.K.String()
+	}
 	if p.Sep {
 		return "wconc-sep/" + p.K.String()
 	}
@@ -603,7 +608,11 @@ func c07WSetup(prm c07WParams) func(c *fw.Ctx, name string) explore.Setup {
 				}
 				useB := func() {
 					// a new client picks up what A returned to the pools
-					b := mkConn(pb, k)
+					kb := k
+					if prm.Cross {
+						kb.Client = !k.Client
+					}
+					b := mkConn(pb, kb)
 					nB := 2
 					if prm.Sep {
 						nB = 1
@@ -655,7 +664,7 @@ func c07WSetup(prm c07WParams) func(c *fw.Ctx, name string) explore.Setup {
 						return
 					}
 				}
-				res := frame.Validate(pb.Out, frame.StreamRules{SenderIsClient: k.Client})
+				res := frame.Validate(pb.Out, frame.StreamRules{SenderIsClient: k.Client != prm.Cross})
 				for _, v := range res.Violations {
 					violate(c, w, name, P+"/foreign-bytes-on-the-wire/"+role, fmt.Sprintf("connection B's transport carries a malformed stream (%v): bytes of another connection were flushed into it", v))
 					return
@@ -739,7 +748,10 @@ func c07CrossScenarios(prop string) func(tier string) []scenario {
 			if k.Client {
 				prm.Sep = true
 				scs = append(scs, scenario{Name: prm.name(), Cfg: pw, Setup: c07WSetup(prm)})
+				prm.Sep = false
 			}
+			prm.Cross = true
+			scs = append(scs, scenario{Name: prm.name(), Cfg: pw, Setup: c07WSetup(prm)})
 		}
 		return scs
 	}
@@ -786,7 +798,10 @@ func c07Scenarios(tier string) []scenario {
 		if k.Client {
 			prm.Sep = true
 			scs = append(scs, scenario{Name: prm.name(), Cfg: explore.Config{P: 1, Horizon: 60e9}, Setup: c07WSetup(prm)})
+			prm.Sep = false
 		}
+		prm.Cross = true
+		scs = append(scs, scenario{Name: prm.name(), Cfg: explore.Config{P: 1, Horizon: 60e9}, Setup: c07WSetup(prm)})
 	}
 	ks := []connCfg{{Client: false, Flate: true}, {Client: true, Flate: true}, {Client: false, Flate: true, CNCT: true, SNCT: true}, {Client: true, Flate: true, CNCT: true, SNCT: true}, {Client: true}}
 	for _, k := range ks {
